@@ -2,7 +2,7 @@
 # Detection matrix: every seeded change under seeded/ (both rounds) against every check.
 # Runs in an isolated copy (vp run --with-repo): ALDY_REPO points at a scratch copy of the repository.
 #   usage: harness/seed_matrix.sh <repo copy> [patch files] [check ids]
-R="$1"; PATCHES="${2:-$(ls seeded/C*/patch.diff seeded/round2/C*/patch.diff)}"; CHECKS="${3:-C01 C02 C03 C04 C05 C06 C07 C08 C09 C10 C11 C12 C13 C14 C15 C16 C17 C18 C19}"
+R="$1"; PATCHES="${2:-$(ls seeded/C*/patch.diff seeded/round*/C*/patch.diff)}"; CHECKS="${3:-C01 C02 C03 C04 C05 C06 C07 C08 C09 C10 C11 C12 C13 C14 C15 C16 C17 C18 C19}"
 export ALDY_REPO="$R"
 ls "$R"/aldy/indelpost/*.so >/dev/null 2>&1 || cp /repo/aldy/indelpost/*.so "$R"/aldy/indelpost/
 V="$(pwd)"
